@@ -11,7 +11,7 @@ import facts as FA
 PROPERTY = "C18"
 TITLE = "Runtime reflection and type values describe the code actually generated"
 NEEDS = ("syn", "facts")
-TECHNIQUE = "static analysis: cross-language table agreement (Rust writer tables vs core/src/meta.capy reader tables vs type-checker expectations), extracted from syntax"
+TECHNIQUE = "static analysis: cross-language table agreement (Rust writer tables vs core/src/meta.capy reader tables vs type-checker expectations), extracted from syntax; lexically resolved provenance of every written value (what it is computed from, not how locals are spelled)"
 EXPLANATION = (
     "The reflection data is written by Rust (codegen::convert type ids, codegen::compiler::ty_info records) and read by "
     "capy code in core/src/meta.capy, with hir_ty::BuiltinKind describing the records to the type checker. The check "
